@@ -289,6 +289,18 @@ class AbsInt:
         c = unwrap(c)
         if c is None:
             return None
+        # `const bool full = (prm.type == 1);` - a local that is defined once, by a condition over the configuration, IS that condition
+        hops = 0
+        while c is not None and c['k'] == 'ref' and hops < 4 and self.f.decl(c['d']).get('k') == 'local':
+            d = c['d']
+            inits = [v['init'] for n in self.f.nodes.values() if n['k'] == 'decl' for v in n['v'] if v['d'] == d and v.get('init') is not None]
+            mods = [n for n in self.f.nodes.values() if n['k'] == 'bin' and n['op'] in ('=', '|=', '&=', '^=') and unwrap(n['x'])['k'] == 'ref' and unwrap(n['x'])['d'] == d]
+            if len(inits) != 1 or mods:
+                break
+            c = unwrap(inits[0])
+            hops += 1
+        if c is None:
+            return None
         ok = [True]
         has_prm = [False]
 
